@@ -92,7 +92,7 @@ func run(c *vh.Ctx) error {
 			if pan, pv := vh.Recover(func() { baseVar, err = fam.decode(base) }); pan {
 				err = fmt.Errorf("panic: %v", pv)
 			}
-			if err != nil || (fam.firstAccepted && baseVar != fam.spec[sh.id]) {
+			if err != nil || (fam.firstAccepted && fam.spec != nil && baseVar != fam.spec[sh.id]) {
 				if !fam.firstAccepted {
 					c.Res.Count(vh.Hex(base), false, "shape-rejected:"+fam.name)
 					c.Res.Notes = append(c.Res.Notes, fmt.Sprintf("%s shape id=%d rejected in minimal form: %v", fam.name, sh.id, err))
@@ -124,6 +124,9 @@ func run(c *vh.Ctx) error {
 						var derr error
 						pan, pv := vh.Recover(func() { got, derr = fam.decode(fam.full(it)) })
 						want := fam.spec[sh.id]
+						if fam.spec == nil { // no generated table for this decoder: only the comparison with the minimal form applies
+							want = baseVar
+						}
 						o.Variant = got
 						c.Res.Distribution["family:"+fam.name]++
 						c.Res.Sample(map[string]any{"family": fam.name, "hex": o.Hex, "header": formName[of], "id_form": formName[idf], "id": sh.id, "variant": got})
